@@ -187,13 +187,25 @@ func (e *svcEnv) do(ctx context.Context, op svcOp) string {
 		}
 		return ""
 	case "read":
+		// a read-crew request: what it returns is a snapshot - every machine as it was at one moment
 		c := s.crew.Copy()
-		var ids []string
-		for id := range c.Machines {
-			ids = append(ids, id)
+		var parts []string
+		for id, m := range c.Machines {
+			if m == nil {
+				parts = append(parts, id+"=<nil>")
+				continue
+			}
+			node, bs := "", "{}"
+			if m.State != nil {
+				node = m.State.NodeName
+				if m.State.Bs != nil {
+					bs = rstep.Canon(map[string]interface{}(m.State.Bs))
+				}
+			}
+			parts = append(parts, id+"="+node+"/"+bs)
 		}
-		sort.Strings(ids)
-		return strings.Join(ids, ",")
+		sort.Strings(parts)
+		return strings.Join(parts, ",")
 	}
 	return "?"
 }
@@ -421,6 +433,9 @@ func c16Scenarios(thorough bool) []c16Scenario {
 		{Init: m1, Threads: [][]svcOp{{add("m2"), rem("m2")}, {rem("m2"), add("m2")}}},
 		{Init: m1, Threads: [][]svcOp{{inc("m1")}, {inc("m1")}}, Down: true},
 		{Init: m1, Threads: [][]svcOp{{add("m2")}, {read}}, Down: true},
+		// read-crew against requests that change several machines
+		{Init: []svcOp{add("m1"), add("m2")}, Threads: [][]svcOp{{bc}, {read}}},
+		{Init: []svcOp{add("m1"), add("m2")}, Threads: [][]svcOp{{read, read}, {bc, inc("m2")}}},
 	}
 	if thorough {
 		out = append(out,
